@@ -513,13 +513,20 @@ def correspondence(ctx):
             c.count('corners:groups:%d' % min(len(corners_canon_real(impl[1], t)), 9))
             nontrivial = True
         else:
-            impl_s = 'ok ' + dumps(impl[1])
+            try:
+                impl_s = 'ok ' + dumps(impl[1])
+            except Exception as ex:
+                # the implementation returned something that cannot even be serialised as a topology
+                # (e.g. a structure containing None): a disagreement, not a harness failure
+                impl_s = 'unserialisable result (%s): %r' % (type(ex).__name__, impl[1])
+                impl_s = impl_s[:600]
             agree = out == impl_s
             nontrivial = '(iface ' in impl_s or kind in ('gbd', 'gbp')
             if kind == 'sub':
                 c.count('sub:' + ('None' if impl_s == 'ok None' else 'self' if impl_s == 'ok self' else 'dom'))
             if kind == 'join':
-                c.count('join:ifaces:%d' % min(len(loads_all(impl_s[3:])[0][1][4]) - 1, 12))
+                if impl_s.startswith('ok '):
+                    c.count('join:ifaces:%d' % min(len(loads_all(impl_s[3:])[0][1][4]) - 1, 12))
         if not agree:
             c.disagreements.append({'input': line, 'impl': impl_s, 'model': out, 'note': kind})
             if spec is not None and spec not in _DISAGREE_SPECS:
